@@ -274,20 +274,21 @@ Proof.
   destruct (Nat.ltb_spec (bused b) len) as [Hl|Hl].
   { rewrite (proj2 (Nat.leb_gt _ _)) by lia. reflexivity. }
   rewrite (proj2 (Nat.leb_le _ _)) by lia. cbn [andb].
-  assert (Main : forall keep, (if len =? 0 then keep = off /\ off <= bused b else keep = bused b - len /\ off <= keep) ->
-     (btr b <> 0 -> off mod btr b = 0 /\ len mod btr b = 0) ->
-     match (do m <- (if keep - off =? 0 then Ok (bdata b) else mv (bdata b) off (off + len) (keep - off));
+  assert (Main : forall len1 keep, (if len =? 0 then len1 = bused b - off /\ keep = off /\ off <= bused b
+                                    else len1 = len /\ keep = bused b - len /\ off <= keep) ->
+     (btr b <> 0 -> off mod btr b = 0 /\ len1 mod btr b = 0) ->
+     match (do m <- (if keep - off =? 0 then Ok (bdata b) else mv (bdata b) off (off + len1) (keep - off));
             Ok (set_used (set_data b m) (off + (keep - off)))) with
      | Ok b' => keeps b b' /\ buf_wf b' /\
                 bview b' = (if len =? 0 then firstn off (bview b) else cutv (bview b) off len)
      | _ => False end).
-  { intros keep Hk Hal. destruct (Nat.eqb_spec len 0) as [->|Hn].
-    - destruct Hk as [-> Ho]. rewrite Nat.sub_diag. cbn [Nat.eqb bind].
+  { intros len1 keep Hk Hal. destruct (Nat.eqb_spec len 0) as [->|Hn].
+    - destruct Hk as [-> [-> Ho]]. rewrite Nat.sub_diag. cbn [Nat.eqb bind].
       split; [unfold keeps; auto|]. split.
       + unfold buf_wf; cbn [bused bdata bsize btr set_used set_data]. repeat split; try lia.
         intros Ht. destruct (Hal Ht). rewrite Nat.add_0_r. assumption.
       + unfold bview; cbn [bused bdata set_used set_data]. list_eq.
-    - destruct Hk as [-> Ho].
+    - destruct Hk as [-> [-> Ho]].
       destruct (Nat.eqb_spec (bused b - len - off) 0) as [Hz|Hz]; cbn [bind].
       + split; [unfold keeps; auto|]. split.
         * unfold buf_wf; cbn [bused bdata bsize btr set_used set_data]. repeat split; try lia.
@@ -307,26 +308,28 @@ Proof.
     { rewrite (proj2 (Nat.leb_gt _ _)) by lia. reflexivity. }
     rewrite (proj2 (Nat.leb_le _ _)) by lia. cbn [bind andb].
     destruct (Nat.eqb_spec (btr b) 0) as [Ht|Ht]; cbn [negb andb orb].
-    + specialize (Main off).
-      specialize (Main ltac:(auto) ltac:(intros; contradiction)).
+    + specialize (Main (bused b - off) off ltac:(auto) ltac:(intros; contradiction)).
       destruct (do m <- _; _) as [b'| |]; try contradiction. intuition.
-    + destruct (aligned (btr b) off) eqn:A1; cbn [negb andb]; [|reflexivity].
-      destruct (aligned (btr b) len) eqn:A2; cbn [negb andb]; [|reflexivity].
-      apply mod_aligned in A1, A2.
-      specialize (Main off).
-      specialize (Main ltac:(auto) ltac:(auto)).
-      destruct (do m <- _; _) as [b'| |]; try contradiction. intuition.
+    + assert (A0 : aligned (btr b) len = true).
+      { rewrite Hn. unfold aligned. rewrite Nat.mod_0_l by assumption. reflexivity. }
+      rewrite A0, andb_true_r.
+      destruct (aligned (btr b) off) eqn:A1; cbn [negb andb].
+      * apply mod_aligned in A1.
+        assert (A2 : (bused b - off) mod btr b = 0) by (apply aligned_sub; auto).
+        assert (A2' : aligned (btr b) (bused b - off) = true) by (apply mod_aligned; exact A2).
+        rewrite A2'. cbn [negb].
+        specialize (Main (bused b - off) off ltac:(auto) ltac:(auto)).
+        destruct (do m <- _; _) as [b'| |]; try contradiction. intuition.
+      * reflexivity.
   - destruct (Nat.ltb_spec (bused b - len) off) as [Ho|Ho].
     { rewrite (proj2 (Nat.leb_gt _ _)) by lia. reflexivity. }
     rewrite (proj2 (Nat.leb_le _ _)) by lia. cbn [bind andb].
     destruct (Nat.eqb_spec (btr b) 0) as [Ht|Ht]; cbn [negb andb orb].
-    + specialize (Main (bused b - len)).
-      specialize (Main ltac:(auto) ltac:(intros; contradiction)).
+    + specialize (Main len (bused b - len) ltac:(auto) ltac:(intros; contradiction)).
       destruct (do m <- _; _) as [b'| |]; try contradiction. intuition.
     + destruct (aligned (btr b) off) eqn:A1; cbn [negb andb]; [|reflexivity].
       destruct (aligned (btr b) len) eqn:A2; cbn [negb andb]; [|reflexivity].
       apply mod_aligned in A1, A2.
-      specialize (Main (bused b - len)).
-      specialize (Main ltac:(auto) ltac:(auto)).
+      specialize (Main len (bused b - len) ltac:(auto) ltac:(auto)).
       destruct (do m <- _; _) as [b'| |]; try contradiction. intuition.
 Qed.
